@@ -82,7 +82,7 @@ def run_shard(sh):
     k = sp_['k']
     bigB = [[k, 'm1'], ['zz', 'm2'], [k, 'm3'], [k, 'm4'], ['zz', 'm5']]
     bigA = [[k, 'q'], ['zz', 'm5'], ['none', 'x'], [k, 'm4'], [k, 'm1']]
-    tabsB_extra = [bigB, bigB[::-1], bigB[:4]]
+    tabsB_extra = [bigB, bigB[::-1], bigB[:4], [[k, 'm1'], [], [k, 'm3']], [[], [k, 'm1']]]      # incl. a zero-width record inside B (not the end of the table)
     tabsA_extra = [bigA, bigA[:2], bigA[2:]]
     jscases = []
     for qi, q in enumerate(sp_['qs'][sh['lo']:sh['hi']]):
